@@ -9,9 +9,12 @@ CHECK = {
             "retired records' valves (incl. amounts that exhaust a credit exactly), updateUsageQueue, updateUsageQueueForOne (current / retired record), "
             "commitUpdate, activation, session open / close (incl. the last), TerminateActiveUser, top-ups, expiry edits, deletion and re-creation, "
             "clock steps; two VerifPoint-steered overlaps (traffic while updateUsageQueue sits between its locks; collection + commit while a "
-            "last-session closure sits before TerminateActiveUser). Monitors after every op: granted - stored <= carried per user and direction; "
+            "last-session closure sits before TerminateActiveUser). Wire part (10 / 125 scripts): a real client Session and the user's server Session joined by a "
+            "byte-counting in-memory connection, 2-5 request/reply exchanges through real streams: the valve must show exactly the bytes read from / written to "
+            "the client and the credits must drop by exactly those amounts. Thorough tier and search: 20 runs of a commitUpdate loop against a traffic + "
+            "updateUsageQueueForOne loop (3000 iterations each), exactness checked at the end. Monitors after every op: granted - stored <= carried per user and direction; "
             "equality at qualified quiescence; cut-off after every commit. non-trivial = more than one user or at least one termination; distinct by script",
     "assumptions": ["bbolt transaction atomicity; a failing UploadStatus (database fault) is out of scope",
                     "one active record per user (C17's invariant): generators do not re-activate a user while a termination of its record is parked",
-                    "metering points (AddRx for every Read, AddTx after a successful Write) are tied by Gen facts; the harness adds traffic at the valve"],
+                    "in the op-sequence part the harness adds traffic at the valve (metering points are tied by Gen facts and exercised by the wire part)"],
 }
